@@ -459,7 +459,31 @@ func check(r *ev.Run, c Case, g *resolve.Graph, tree *npm.VerifNode, nfired int,
 			}
 			return false
 		}
-		ok := solve(0)
+		reset0 := func() {
+			for k := range usedE {
+				usedE[k] = false
+			}
+			for k := range usedErr {
+				usedErr[k] = false
+			}
+		}
+		ok := false
+		if c.Stratum == Collision && tree != nil && !hasBundles {
+			// Where aliases take package names, matching by package alone can
+			// pair two requirements with each other's edges and still look
+			// consistent (a installed under the name b and b under the name a,
+			// required as a@* and b@*): an assignment Node's lookup agrees with
+			// is looked for first.
+			relaxed, demandLookup = true, true
+			ok = solve(0)
+			if !ok {
+				relaxed, demandLookup = false, false
+				reset0()
+			}
+		}
+		if !ok {
+			ok = solve(0)
+		}
 		if !ok && c.Stratum == Collision {
 			// An alias equal to a package name: the target may sit under the
 			// looked-up name without being a version of the required package.
